@@ -5,6 +5,7 @@ package main
 
 import (
 	"bytes"
+	"encoding/json"
 	"encoding/base64"
 	"encoding/binary"
 	"fmt"
@@ -21,6 +22,8 @@ import (
 	"github.com/ipld/go-ipld-prime/codec/dagjson"
 	"github.com/ipld/go-ipld-prime/datamodel"
 	"github.com/ipld/go-ipld-prime/node/basicnode"
+	mbase "github.com/multiformats/go-multibase"
+	"github.com/multiformats/go-varint"
 
 	"github.com/ucan-wg/go-ucan/did"
 	"github.com/ucan-wg/go-ucan/pkg/container"
@@ -97,6 +100,28 @@ func entryPoints() []entryPoint {
 			_, e = d.PubKey()
 			_ = d.String()
 			return e
+		}},
+		{"policy+data.Match", func(in []byte) error {
+			// input: DAG-JSON {"d": data, "p": policy}: both sides of the match are the adversary's
+			n, e := ipld.Decode(in, dagjson.Decode)
+			if e != nil {
+				return e
+			}
+			pn, e := n.LookupByString("p")
+			if e != nil {
+				return e
+			}
+			dn, e := n.LookupByString("d")
+			if e != nil {
+				return e
+			}
+			p, e := policy.FromIPLD(pn)
+			if e != nil {
+				return e
+			}
+			p.Match(dn)
+			p.PartialMatch(dn)
+			return nil
 		}},
 		{"policy.Match(arbitrary data)", func(in []byte) error {
 			n, e := nodeOfBytes(in)
@@ -343,10 +368,16 @@ func init() {
 		}
 		for _, txt := range []string{strings.Repeat(".a", 200000), "." + strings.Repeat("[0]", 100000), "." + strings.Repeat("[", 100000), `.["` + strings.Repeat("x", 1000000) + `"]`,
 			".[" + strings.Repeat("9", 5000) + "]", ".a[" + strings.Repeat("1", 30) + ":]", strings.Repeat(".", 100000), "." + strings.Repeat("?", 100000), ".\"", `.["`, `.["]`} {
-			record(eps[13], "hostile-text", "selector", []byte(txt))
+			record(epByName(eps, "selector.Parse+Select"), "hostile-text", "selector", []byte(txt))
 		}
 		for _, txt := range []string{"did:key:z" + strings.Repeat("1", 100000), "did:key:z", "did:key:", "did:key:z6Mk", "did:key:" + strings.Repeat("z", 5000), "did:key:zQ3s", "did:key:f" + strings.Repeat("ed01", 30)} {
-			record(eps[14], "hostile-text", "did", []byte(txt))
+			record(epByName(eps, "did.Parse+PubKey"), "hostile-text", "did", []byte(txt))
+		}
+		for name, b := range hostilePairs() {
+			record(epByName(eps, "policy+data.Match"), "hostile-pair", name, b)
+		}
+		for _, txt := range truncatedKeyDids() {
+			record(epByName(eps, "did.Parse+PubKey"), "hostile-text", "did-truncated-key", []byte(txt))
 		}
 		// 2. seeds: the repository's fuzz corpora and fixtures, plus honest artefacts
 		var corpus [][]byte
@@ -429,4 +460,97 @@ func init() {
 		}
 		return nil
 	}
+}
+
+func epByName(eps []entryPoint, name string) entryPoint {
+	for _, e := range eps {
+		if e.name == name {
+			return e
+		}
+	}
+	panic("no entry point " + name)
+}
+
+// hostilePairs: a policy and the data it is matched against, both chosen by the adversary and both
+// large: the cost of a match must stay linear in their combined size (no tables of size
+// pattern x string, no re-scans per element).
+func hostilePairs() map[string][]byte {
+	out := map[string][]byte{}
+	q := func(s string) string { b, _ := json.Marshal(s); return string(b) }
+	pair := func(name, pol, data string) { out[name] = []byte(`{"d":` + data + `,"p":` + pol + `}`) }
+	for _, n := range []int{4 << 10, 16 << 10, 48 << 10} {
+		tag := fmt.Sprintf("%dk", n>>10)
+		as, bs := strings.Repeat("a", n), strings.Repeat("ab", n/2)
+		pair("like-literal-"+tag, `[["like",".s",`+q(as)+`]]`, `{"s":`+q(as)+`}`)
+		pair("like-literal-miss-"+tag, `[["like",".s",`+q(as+"b")+`]]`, `{"s":`+q(as)+`}`)
+		pair("like-stars-"+tag, `[["like",".s",`+q(strings.Repeat("a*", n/2)+"b")+`]]`, `{"s":`+q(as)+`}`)
+		pair("like-alternating-"+tag, `[["like",".s",`+q(strings.Repeat("*ab", n/3))+`]]`, `{"s":`+q(bs)+`}`)
+		pair("like-prefix-star-"+tag, `[["like",".s",`+q("*"+as)+`]]`, `{"s":`+q("b"+as)+`}`)
+		pair("like-escapes-"+tag, `[["like",".s",`+q(strings.Repeat("\\*", n/2))+`]]`, `{"s":`+q(strings.Repeat("*", n/2))+`}`)
+		ints := strings.TrimSuffix(strings.Repeat("1,", n), ",")
+		pair("all-long-list-"+tag, `[["all",".l",[">",".",0]]]`, `{"l":[`+ints+`]}`)
+		pair("any-miss-long-list-"+tag, `[["any",".l",["==",".",2]]]`, `{"l":[`+ints+`]}`)
+		pair("slice-long-list-"+tag, `[["==",".l[1:-1]",[1]]]`, `{"l":[`+ints+`]}`)
+		pair("slice-long-string-"+tag, `[["==",".s[1:-1]","x"]]`, `{"s":`+q(strings.Repeat("é", n))+`}`)
+		pair("eq-long-lists-"+tag, `[["==",".l",[`+ints+`]]]`, `{"l":[`+ints+`]}`)
+		pair("iterator-long-map-"+tag, `[["all",".m[]",["==",".",1]]]`, `{"m":{`+func() string {
+			var sb strings.Builder
+			for i := 0; i < n/8; i++ {
+				if i > 0 {
+					sb.WriteByte(',')
+				}
+				fmt.Fprintf(&sb, `"k%d":1`, i)
+			}
+			return sb.String()
+		}()+`}}`)
+		many := strings.TrimSuffix(strings.Repeat(`["==",".a",1],`, n/16), ",")
+		pair("many-statements-"+tag, `[`+many+`]`, `{"a":1}`)
+		pair("and-many-"+tag, `[["and",[`+many+`]]]`, `{"a":1}`)
+		pair("or-many-miss-"+tag, `[["or",[`+many+`]]]`, `{"a":2}`)
+	}
+	nested := `["==",".",1]`
+	for i := 0; i < 300; i++ {
+		nested = `["all",".[]",` + nested + `]`
+	}
+	pair("nested-quantifiers-300", `[`+nested+`]`, strings.Repeat("[", 300)+"1"+strings.Repeat("]", 300))
+	return out
+}
+
+// truncatedKeyDids: did:key identifiers whose key material is cut to every length (0 bytes up to
+// one byte more than the key), for every supported multicodec.
+func truncatedKeyDids() []string {
+	var out []string
+	kr := keyring{}
+	rng := rand.New(rand.NewSource(1))
+	for _, alg := range []string{"ed25519", "secp256k1", "p256", "p384", "p521", "rsa"} {
+		k, err := kr.get(alg, 1)
+		if err != nil {
+			continue
+		}
+		mat, err := material(k, "canonical", rng)
+		if err != nil {
+			continue
+		}
+		code := varint.ToUvarint(algCodes[alg])
+		lens := []int{}
+		for i := 0; i <= len(mat)+1 && i <= 70; i++ {
+			lens = append(lens, i)
+		}
+		if len(mat) > 70 {
+			lens = append(lens, len(mat)/2, len(mat)-1, len(mat)+1)
+		}
+		for _, l := range lens {
+			m := append([]byte{}, mat...)
+			if l <= len(m) {
+				m = m[:l]
+			} else {
+				m = append(m, 0)
+			}
+			body, err := mbase.Encode(mbase.Base58BTC, append(append([]byte{}, code...), m...))
+			if err == nil {
+				out = append(out, "did:key:"+body)
+			}
+		}
+	}
+	return out
 }
